@@ -150,3 +150,36 @@ func RefRecoverPubVRS(vrs, hash []byte) (*secp256k1.PublicKey, bool) {
 	}
 	return pk, true
 }
+
+// ForgeForZeroMessage builds, from a PUBLIC key alone, a 65-byte [R|S|V]
+// signature whose recovery over the zero message scalar (e = 0) yields that
+// key: R = k*P, r = R.x, s = r/k  =>  r^-1 * (s*R - 0*G) = P. It is what an
+// attacker can present if a verifier ever recovers over an empty hash.
+func ForgeForZeroMessage(pub *secp256k1.PublicKey, k uint32) []byte {
+	var p, rp secp256k1.JacobianPoint
+	pub.AsJacobian(&p)
+	for i := k; ; i++ {
+		if i < 2 {
+			i = 2
+		}
+		var ks secp256k1.ModNScalar
+		ks.SetInt(i)
+		secp256k1.ScalarMultNonConst(&ks, &p, &rp)
+		rp.ToAffine()
+		xb := rp.X.Bytes()
+		var r secp256k1.ModNScalar
+		if overflow := r.SetByteSlice(xb[:]); overflow || r.IsZero() {
+			continue
+		}
+		var s secp256k1.ModNScalar
+		s.Set(&ks).InverseNonConst().Mul(&r)
+		out := make([]byte, 65)
+		rb, sb := r.Bytes(), s.Bytes()
+		copy(out[0:32], rb[:])
+		copy(out[32:64], sb[:])
+		if rp.Y.IsOdd() {
+			out[64] = 1
+		}
+		return out
+	}
+}
